@@ -363,8 +363,14 @@ func checkStep(op Op, class int, pre, post *View, joined map[int]int64, redelega
 		if post.rec(op.A) != nil {
 			fail("C13:unbond:record-left", "oracle %d: record not deleted by the withdrawal", op.A)
 		}
+		// "withdraws its stake minus penalties": the oracle receives max(0, delegate balance - penalty) and the delegate
+		// address ends empty (a tree that refuses when the balance is smaller than the penalty never gets here with less)
 		paid := sub(post.BalO[op.A], pre.BalO[op.A])
-		if new(big.Int).Add(paid, pen).Cmp(pre.BalD[op.A]) != 0 || post.BalD[op.A].Sign() != 0 {
+		want := sub(pre.BalD[op.A], pen)
+		if want.Sign() < 0 {
+			want = big.NewInt(0)
+		}
+		if paid.Cmp(want) != 0 || post.BalD[op.A].Sign() != 0 {
 			fail("C13:unbond:amount", "oracle %d: paid %s, penalty %s, delegate balance was %s", op.A, paid, pen, pre.BalD[op.A])
 		}
 		if pre.unbondingEntries(op.A) > 0 {
